@@ -2737,40 +2737,30 @@ impl LineBuf {
 			MotionCmd(count,Motion::CharSearch(direction, dest, ch)) => {
 				let mut ch_buf = [0u8;4];
 				let ch_str = ch.encode_utf8(&mut ch_buf);
-				let mut pos = self.cursor;
+				// f, t, F and T stay on the cursor's line (without its newline)
+				let (line_start,mut line_end) = self.this_line();
+				if line_end > line_start && self.grapheme_at(line_end - 1) == Some("\n") {
+					line_end -= 1;
+				}
+				let mut pos = self.cursor.get();
+				// The count-th occurrence, or no movement at all
 				for _ in 0..count {
+					let found = match direction {
+						Direction::Forward => (pos + 1..line_end).find(|i| self.grapheme_at(*i) == Some(ch_str)),
+						Direction::Backward => (line_start..pos.min(line_end)).rev().find(|i| self.grapheme_at(*i) == Some(ch_str)),
+					};
+					let Some(ch_pos) = found else {
+						return MotionKind::Null
+					};
+					pos = ch_pos;
+				}
+				if dest == Dest::Before {
 					match direction {
-						Direction::Forward => {
-							let after = pos.ret_add(1);
-							let mut indices_iter = after..pos.max;
-
-							let Some(ch_pos) = indices_iter.find(|i| {
-								self.grapheme_at(*i) == Some(ch_str)
-							}) else {
-								return MotionKind::Null
-							};
-							pos.set(ch_pos);
-						}
-						Direction::Backward => {
-							let before = pos.ret_sub(1);
-							let mut indices_iter = (0..before).rev();
-
-							let Some(ch_pos) = indices_iter.find(|i| {
-								self.grapheme_at(*i) == Some(ch_str)
-							}) else {
-								return MotionKind::Null
-							};
-							pos.set(ch_pos);
-						}
-					}
-					if dest == Dest::Before {
-						match direction {
-							Direction::Forward => pos.sub(1),
-							Direction::Backward => pos.add(1),
-						}
+						Direction::Forward => pos -= 1,
+						Direction::Backward => pos += 1,
 					}
 				}
-				MotionKind::Onto(pos.get())
+				MotionKind::Onto(pos)
 			}
 			MotionCmd(count,motion @ (Motion::ForwardChar | Motion::BackwardChar)) => {
 				let mut target = self.cursor;
